@@ -81,6 +81,8 @@ struct Conc : Prop {
 				for (size_t i = 0; i < b.signals_dcc.size(); i++) c.push_back({4, &b, b.signals_dcc[i].id, "signal_state", i});
 				for (size_t i = 0; i < b.segs.size(); i++) c.push_back({5, &b, b.segs[i].id, "segment_state", i});
 				for (size_t i = 0; i < b.revs.size(); i++) c.push_back({6, &b, b.revs[i].id, "reverser_state", i});
+				// position reports of a Secure-ACK board: handed to the application's queue and mirrored by the receiver
+				if (b.secack()) { c.push_back({7, &b, "", "", 0}); c.push_back({7, &b, "", "", 0}); }
 			}
 			if (!c.empty()) fo = c[r.below(c.size())];
 		}
@@ -99,6 +101,7 @@ struct Conc : Prop {
 					else if (x == 2) { e.set("type", (int) MSG_BM_CURRENT); e.set("data", pc::jarr({sa, (int) r.byte()})); }
 					else { J d = J::arr(); d.push(sa); int n = (int) r.below(4); if (n == 0) { d.push(0); d.push(0); } for (int q = 0; q < n; q++) { if (!w.trains.empty() && r.chance(700)) { auto &tr = w.trains[r.below(w.trains.size())]; d.push((int) tr.addrl); d.push((int) ((tr.addrh & 0x3F) | (r.coin() ? 0x80 : 0))); } else { d.push((int) r.byte()); d.push((int) r.below(0x28)); } } e.set("type", (int) MSG_BM_ADDRESS); e.set("data", d); }
 					break; }
+				case 7: { e.set("type", (int) MSG_BM_POSITION); e.set("data", pc::jarr({(int) r.byte(), (int) r.below(0x28), (int) r.below(4), (int) r.byte(), (int) r.byte()})); break; }
 				default: { const std::string &name = fo.b->revs[fo.idx].cv; char val = "0123x"[r.below(5)]; J d = J::arr(); d.push((int) name.size()); for (char ch : name) d.push((int) (uint8_t) ch); d.push(1); d.push((int) val); e.set("type", (int) MSG_VENDOR); e.set("data", d); break; }
 			}
 			return e;
@@ -133,7 +136,8 @@ struct Conc : Prop {
 				for (int i = 0; i < no; i++) {
 					uint64_t x = r.below(100);
 					J op;
-					if (fo.kind >= 0 && role != 2 && r.chance(role == 1 ? 800 : 400)) { op = J::obj(); op.set("op", "get"); op.set("fn", r.chance(850) ? fo.getter : std::string("state")); J sa = J::arr(); if (op.gets("fn") != "state") sa.push(fo.id); op.set("s", sa); op.set("i", J::arr()); }
+					if (fo.kind == 7 && r.chance(600)) { op = J::obj(); op.set("op", r.chance(700) ? "read" : "drain"); if (op.gets("op") == "drain") op.set("q", "read"); }
+					else if (fo.kind >= 0 && fo.kind != 7 && role != 2 && r.chance(role == 1 ? 800 : 400)) { op = J::obj(); op.set("op", "get"); op.set("fn", r.chance(850) ? fo.getter : std::string("state")); J sa = J::arr(); if (op.gets("fn") != "state") sa.push(fo.id); op.set("s", sa); op.set("i", J::arr()); }
 					else if (!is_c11 && !w.trains.empty() && x < 12) { op = J::obj(); op.set("op", "get"); op.set("fn", "train_state"); J sa = J::arr(); sa.push(w.trains[0].id); op.set("s", sa); op.set("i", J::arr()); }
 					else if (role == 1 ? x < 85 : role == 2 ? x < 10 : role == 3 ? x < 10 : x < 40) op = api::get_op(r, ids, w);
 					else if (role == 3 ? x < 80 : x < 50) { op = J::obj(); op.set("op", r.chance(800) ? "read" : "read_err"); }
@@ -231,7 +235,7 @@ struct Conc : Prop {
 		cfg::starve_after_startup(sc, r);
 		plan.set("sched", sc);
 		if (!is_c11) plan.set("variant_hint", "asan+tsan");
-		if (fo.kind >= 0) plan.set("focus", fo.getter + ":" + fo.id);
+		if (fo.kind >= 0) plan.set("focus", fo.kind == 7 ? std::string("position reports of a SecAck board") : fo.getter + ":" + fo.id);
 		return plan;
 	}
 
